@@ -137,3 +137,32 @@ def solver_run(text, argv_extra, getters=('get_results',), time_limit=None):
         s = Solver(['-f', path] + list(argv_extra))
         s.solve(msg=False, timeLimit=time_limit, threads=None, write=False)
         return [canon_results(getattr(s, g)()) for g in getters]
+
+
+class SkipCase(Exception):
+    """the case cannot be posed to this version of the code through a public route"""
+
+
+def read_pref_tokens(tokens):
+    """The importer's tie-aware tokeniser on one preference list: ([ids], [ranks]).  Uses the private helper when it
+    exists under its pinned name; otherwise (a maintainer may rename private helpers) goes through the public route:
+    a one-resident two-agent file whose only preference list is the token sequence."""
+    from matchingproblems.solver import fileIO
+    f = getattr(fileIO, '_get_simple_pref_list_and_ranks', None)
+    if f is not None:
+        a, b = f(list(tokens))
+        return [list(a), list(b)]
+    ids = []
+    for t in tokens:
+        u = t.strip('()')
+        if not u.isdigit() or int(u) < 1 or int(u) > 5000:
+            raise SkipCase('token %r cannot be written into a file' % (t,))
+        ids.append(int(u))
+    if len(set(ids)) != len(ids) or not ids:
+        raise SkipCase('empty list / repeated entries')
+    n = max(ids)
+    text = '1 %d\n1: %s\n' % (n, ' '.join(tokens)) + ''.join('%d: 0: 1:\n' % j for j in range(1, n + 1))
+    from matchingproblems.solver.solver import Solver
+    with tmpfile(text) as path:
+        m = Solver(['-f', path, '-na', '2']).model
+    return [[p.projectID for p in m.pairs[0]], [p.rank_student for p in m.pairs[0]]]
